@@ -1,26 +1,23 @@
 //go:build verif
 
-// Contracts for package deb, checked by /verif/gvc (contract-based deductive
+// Contracts for package ipk, checked by /verif/gvc (contract-based deductive
 // verification).  This file is comment-only: with the build tag off it does
 // not exist for the compiler, with it on it adds nothing but a package clause.
-package deb
+package ipk
 
 //@ import "io"
-//@ import "strings"
+//@ import "archive/tar"
 //@ import "github.com/goreleaser/nfpm/v2"
 //
-//@ func (d *Deb) Package(info *nfpm.Info, deb io.Writer) (err error)
+//@ func (d *IPK) Package(info *nfpm.Info, ipk io.Writer) (err error)
 //@   requires info != nil
 //@   requires !flag("failed") && !flag("clockRead") && !flag("envRead")
 //@   ensures [C06] loud: implies(err == nil, !flag("failed"))
 //@   ensures [C07] no-clock: implies(!old(info.MTime.IsZero()), !flag("clockRead"))
 //@   ensures [C07] no-env: !flag("envRead")
-//@   modifies [C11 C12] &info.Arch, &info.Contents, &info.Priority, &info.Maintainer
+//@   modifies [C11 C12] &info.Arch, &info.Contents, &info.Priority, &info.Maintainer, mapof(info.IPK.Fields)
 //
-//@ import "archive/tar"
-//@ import "bytes"
-//
-//@ inline func createFilesInsideDataTar(info *nfpm.Info, tw *tar.Writer) (md5buf bytes.Buffer, instSize int64, err error)
+//@ inline func populateDataTar(info *nfpm.Info, tw *tar.Writer) (instSize int64, err error)
 //@   loop 0
 //@     invariant [C06] no-failure-so-far: !flag("failed")
 //@     invariant [C07] no-clock-so-far: implies(!old(info.MTime.IsZero()), !flag("clockRead"))
@@ -30,6 +27,6 @@ package deb
 //@   loop 0
 //@     invariant true
 //
-//@ inline func createTriggers(info *nfpm.Info) (result []byte)
-//@   loop 1
+//@ inline func stripDisallowedFields(info *nfpm.Info)
+//@   loop 0
 //@     invariant [C06] no-failure-so-far: !flag("failed")
